@@ -61,7 +61,12 @@ func c14Tags(r *fw.Rand) string {
 func c14Pred(r *fw.Rand) string {
 	key := []string{"host", "region"}[r.Intn(2)]
 	vals := map[string][]string{"host": {"a", "b", "c"}, "region": {"x", "y"}}[key]
-	switch r.Intn(6) {
+	switch r.Intn(8) {
+	case 6:
+		// a regular expression that also matches the empty value, i.e. the series without the tag
+		return key + " nin " + vals[r.Intn(len(vals))] + ","
+	case 7:
+		return key + " in " + vals[r.Intn(len(vals))] + ","
 	case 0:
 		return key + " eq " + vals[r.Intn(len(vals))]
 	case 1:
@@ -82,6 +87,7 @@ func c14Case(r *fw.Rand, index string) fw.Case {
 	// most of a history happens in one measurement: repeated drops and re-creations there
 	focus := c10Meas[r.Intn(3)]
 	last := focus
+	gen := 0
 	pm := func() string {
 		last = c10Meas[r.Intn(3)]
 		if r.Intn(5) < 3 {
@@ -114,7 +120,27 @@ func c14Case(r *fw.Rand, index string) fw.Case {
 	observe()
 	steps := 5 + r.Intn(12)
 	for i := 0; i < steps; i++ {
-		switch r.Intn(13) {
+		switch r.Intn(14) {
+		case 13:
+			// another shard of the database holds k series of the measurement alone and is
+			// removed as a whole; k new series are written here before the next listing
+			m := pm()
+			k := 1 + r.Intn(3)
+			gen++
+			// (the in-memory index is one per database: while the other shard exists only the
+			// per-shard listings are asked for, and the series written here afterwards are
+			// the ones the other shard held, so that every tag value is in use here again)
+			var side, fresh []string
+			for j := 0; j < k; j++ {
+				side = append(side, fmt.Sprintf("%s|host=a,region=g%d_%d|%d|n=i1", m, gen, j, c10Base))
+				fresh = append(fresh, fmt.Sprintf("%s|host=a,region=g%d_%d|%d|n=i%d", m, gen, j, c10Base+int64(r.Intn(20))*1000, r.Intn(100)))
+			}
+			ops = append(ops, "w "+fmt.Sprintf("%s|host=a|%d|n=i%d", m, c10Base+int64(r.Intn(20))*1000, r.Intn(100)))
+			ops = append(ops, "sidew "+strings.Join(side, ";"))
+			ops = append(ops, "sidelist "+m)
+			ops = append(ops, "sidedel", "w "+strings.Join(fresh, ";"))
+			ops = append(ops, "series", "seriesby "+m+" host ne c", "seriesby "+m+" region ne x", "seriesby "+m+" host nin c,zz", "tagvals "+m+" region")
+			observe()
 		case 12:
 			// a series loses all its points in this shard (a delete over every instant the
 			// history writes at; with a mirror shard the database keeps the series and its
